@@ -1,7 +1,12 @@
 package c11
 
 import (
+	"bytes"
 	"context"
+	"encoding/binary"
+	"fmt"
+	"runtime"
+	"strconv"
 	"strings"
 	"sync"
 	"time"
@@ -26,6 +31,13 @@ import (
 // -- and again when it says "RD".  Round-1 share batches travel over real loopback libp2p streams (p2p.Send inside
 // frostP2P.Round1); each incoming frost stream is PARKED in front of the real stream handler (newP2PCallback behind
 // p2p.RegisterHandler) until the schedule releases it.
+//
+// Failing sends (schedule step "Fault"): the wire can make one send of a node's send step FAIL -- a direct share stream
+// (gatedHost.NewStream refuses it, or failingStream reports a failed write after the batch is through), a signature
+// request or a cast message of its reliable broadcast (the transport functions below) -- with libp2p's stream-reset /
+// resource-scope-closed errors or a plain error.  What the node does then (give up, try again) is the node's business:
+// the executor records it.  Every stimulus of this mode is followed by settle(): the event is logged, and the next move
+// made, only when the stimulated node is quiescent.
 type cbWorld struct {
 	mu    sync.Mutex
 	cond  *sync.Cond
@@ -34,18 +46,241 @@ type cbWorld struct {
 	comps []*bcast.Component
 	raw   []host.Host
 
-	castIDs  map[int][]string                 // per source: message ids in the order first broadcast (round 1, round 2)
-	captured map[[3]int]*pb.BCastMessage      // [src, dst, round] (1-based nodes)
-	parked   map[[2]int][]chan struct{}       // [src, dst]: parked frost streams (release channels)
-	handled  map[[2]int]int                   // [src, dst]: streams whose real handler has returned
-	arrived  map[[2]int]int                   // [src, dst]: streams that reached the gate
-	protos   map[[2]int]protocol.ID           // protocol of the first parked stream (used for re-sending)
+	castIDs  map[int][]string            // per source: message ids in the order first broadcast (round 1, round 2)
+	captured map[[3]int]*pb.BCastMessage // [src, dst, round] (1-based nodes)
+	parked   map[[2]int][]chan struct{}  // [src, dst]: parked frost streams (release channels)
+	handled  map[[2]int]int              // [src, dst]: streams whose real handler has returned
+	arrived  map[[2]int]int              // [src, dst]: streams that reached the gate
+	protos   map[[2]int]protocol.ID      // protocol of the first parked stream (used for re-sending)
+
+	faults []*fault       // failing sends the schedule has armed (steps "Fault")
+	resent map[int]int    // per source: sends the wire has seen a SECOND time (the node tried again)
+	opened map[[2]int]int // [src, dst]: share streams src has opened to dst
+}
+
+// fault is one armed failing send: the k-th matching send of node i in round r fails `times` times in a row.
+//
+//	what  "p2p": a direct round-1 share stream node i opens (where = "open": NewStream fails; "write": the batch is
+//	             written to the real stream and THEN the write reports the error -- the peer may well have it)
+//	      "sig": a signature request of its reliable broadcast,  "msg": a cast message of its reliable broadcast
+//	err   "reset" / "scope": libp2p's stream reset / resource scope closed (what a recycled relay circuit produces: the
+//	      class p2p.IsRelayError accepts), "plain": any other error
+type fault struct {
+	i, r, k, times int
+	what, err      string
+	where          string
+	seen, fired    int
+}
+
+func (f *fault) error() error {
+	switch f.err {
+	case "reset":
+		if f.where == "write" {
+			return p2pnet.ErrReset
+		}
+
+		return fmt.Errorf("failed to open stream: %w", p2pnet.ErrReset) // as the swarm wraps it
+	case "scope":
+		return p2pnet.ErrResourceScopeClosed
+	default:
+		return errors.New("verif wire: connection refused")
+	}
+}
+
+func (w *cbWorld) arm(f *fault) {
+	w.mu.Lock()
+	defer w.mu.Unlock()
+	w.faults = append(w.faults, f)
+}
+
+// hit reports whether this send of node i (round r, kind what) is one that fails.
+func (w *cbWorld) hit(i, r int, what string) *fault {
+	w.mu.Lock()
+	defer w.mu.Unlock()
+	for _, f := range w.faults {
+		if f.i != i || f.r != r || f.what != what {
+			continue
+		}
+		f.seen++
+		if f.seen >= f.k && f.fired < f.times {
+			f.fired++
+
+			return f
+		}
+	}
+
+	return nil
+}
+
+// fired: injected failures so far; again: sends of node i the wire has seen a second time.
+func (w *cbWorld) stats(i int) (int, int) {
+	w.mu.Lock()
+	defer w.mu.Unlock()
+	n := 0
+	for _, f := range w.faults {
+		if f.i == i {
+			n += f.fired
+		}
+	}
+
+	return n, w.resent[i]
+}
+
+func castRound(id string) int {
+	if strings.Contains(id, "round2") {
+		return 2
+	}
+
+	return 1
+}
+
+// NewStream: the direct sends of the real frostP2P.Round1 (p2p.Send) open their streams here.
+func (g *gatedHost) NewStream(ctx context.Context, p peer.ID, pids ...protocol.ID) (p2pnet.Stream, error) {
+	if len(pids) == 0 || !strings.Contains(string(pids[0]), "/frost/") {
+		return g.Host.NewStream(ctx, p, pids...)
+	}
+	f := g.w.hit(g.self, 1, "p2p")
+	if f != nil && f.where != "write" {
+		return nil, f.error()
+	}
+	s, err := g.Host.NewStream(ctx, p, pids...)
+	if err == nil {
+		g.w.mu.Lock()
+		key := [2]int{g.self, g.w.idx(p)}
+		if g.w.opened[key]++; g.w.opened[key] > 1 {
+			g.w.resent[g.self]++
+		}
+		g.w.mu.Unlock()
+	}
+	if err != nil || f == nil {
+		return s, err
+	}
+
+	return &failingStream{Stream: s, err: f.error()}, nil
+}
+
+// failingStream passes the data on and reports a failed write once the whole length-delimited message is through
+// (the writer of p2p.Send writes the uvarint length prefix and the body separately): the peer holds the complete batch.
+type failingStream struct {
+	p2pnet.Stream
+	err  error
+	head []byte // the first bytes written (length prefix)
+	sent int
+}
+
+func (s *failingStream) Write(b []byte) (int, error) {
+	n, err := s.Stream.Write(b)
+	if err != nil {
+		return n, err
+	}
+	if len(s.head) < binary.MaxVarintLen64 {
+		s.head = append(s.head, b[:min(n, binary.MaxVarintLen64-len(s.head))]...)
+	}
+	s.sent += n
+	if size, k := binary.Uvarint(s.head); k > 0 && s.sent >= k+int(size) {
+		return n, s.err
+	}
+
+	return n, nil
+}
+
+// releaseAll lets every parked stream through (end of a ceremony: nothing is left blocked behind the gate).
+func (w *cbWorld) releaseAll() {
+	w.mu.Lock()
+	defer w.mu.Unlock()
+	for k, l := range w.parked {
+		for _, rel := range l {
+			close(rel)
+		}
+		delete(w.parked, k)
+	}
+}
+
+// ---- quiescence ---------------------------------------------------------------------------------------------
+// A node is QUIESCENT when its goroutine is parked in the receive loop of its real transport call (the select of
+// frostP2P.Round1 / Round2: the Go runtime parks a goroutine in a select only when every channel of the select is
+// empty, and a later send wakes it at once, so a parked node has consumed everything it was given), when the call
+// has returned and the node waits for the schedule to hand the answer back (the select in nodeTP), or when it has
+// returned from runFrostParallel.  Read off the runtime's own goroutine dump; nothing is inferred from elapsed time.
+
+var stackBuf = make([]byte, 1<<21)
+
+func goid() int64 {
+	buf := make([]byte, 64)
+	buf = buf[:runtime.Stack(buf, false)] // "goroutine 123 [running]:"
+	f := strings.Fields(string(buf))
+	if len(f) < 2 {
+		return -1
+	}
+	id, err := strconv.ParseInt(f[1], 10, 64)
+	if err != nil {
+		return -1
+	}
+
+	return id
+}
+
+// parked reports whether goroutine id is parked in a select directly inside one of the transport calls (or is gone).
+func parked(id int64) bool {
+	var dump []byte
+	for {
+		n := runtime.Stack(stackBuf, true)
+		if n < len(stackBuf) {
+			dump = stackBuf[:n]
+			break
+		}
+		stackBuf = make([]byte, 2*len(stackBuf))
+	}
+	hdr := []byte(fmt.Sprintf("goroutine %d [", id))
+	at := -1
+	if bytes.HasPrefix(dump, hdr) {
+		at = 0
+	} else if k := bytes.Index(dump, append([]byte("\n\n"), hdr...)); k >= 0 {
+		at = k + 2
+	}
+	if at < 0 {
+		return true // the goroutine has ended
+	}
+	block := dump[at:]
+	if k := bytes.Index(block, []byte("\n\n")); k >= 0 {
+		block = block[:k]
+	}
+	lines := strings.Split(string(block), "\n")
+	if !strings.HasPrefix(lines[0][len(hdr):], "select") {
+		return false
+	}
+	for _, ln := range lines[1:] {
+		if strings.HasPrefix(ln, "\t") || strings.HasPrefix(ln, "runtime.") {
+			continue
+		}
+
+		return strings.Contains(ln, "dkg.(*frostP2P).Round") || strings.Contains(ln, "c11.(*nodeTP).Round")
+	}
+
+	return false
+}
+
+// settle waits until node goroutine id is quiescent; false after the generous wait (a node that is stuck).
+func settle(id int64) bool {
+	deadline := time.Now().Add(waitFor)
+	pause := 50 * time.Microsecond
+	for !parked(id) {
+		if time.Now().After(deadline) {
+			return false
+		}
+		time.Sleep(pause)
+		if pause < 4*time.Millisecond {
+			pause *= 2
+		}
+	}
+
+	return true
 }
 
 func newCBWorld(n int) *cbWorld {
 	w := &cbWorld{
 		n: n, castIDs: map[int][]string{}, captured: map[[3]int]*pb.BCastMessage{}, parked: map[[2]int][]chan struct{}{},
-		handled: map[[2]int]int{}, arrived: map[[2]int]int{}, protos: map[[2]int]protocol.ID{},
+		handled: map[[2]int]int{}, arrived: map[[2]int]int{}, protos: map[[2]int]protocol.ID{}, resent: map[int]int{}, opened: map[[2]int]int{},
 	}
 	w.cond = sync.NewCond(&w.mu)
 
@@ -103,6 +338,9 @@ func (w *cbWorld) sendRecv(a int) p2p.SendReceiveFunc {
 		if b == 0 || !ok {
 			return errors.New("verif wire: unexpected signature request")
 		}
+		if f := w.hit(a, castRound(sigReq.GetId()), "sig"); f != nil {
+			return f.error()
+		}
 		r, err := w.comps[b-1].VerifHandleSigRequest(ctx, w.ids[a-1], sigReq)
 		if err != nil {
 			return err
@@ -120,6 +358,9 @@ func (w *cbWorld) send(a int) p2p.SendFunc {
 		if b == 0 || !ok {
 			return errors.New("verif wire: unexpected broadcast message")
 		}
+		if f := w.hit(a, castRound(m.GetId()), "msg"); f != nil {
+			return f.error()
+		}
 		w.mu.Lock()
 		defer w.mu.Unlock()
 		round := 0
@@ -131,6 +372,9 @@ func (w *cbWorld) send(a int) p2p.SendFunc {
 		if round == 0 {
 			w.castIDs[a] = append(w.castIDs[a], m.GetId())
 			round = len(w.castIDs[a])
+		}
+		if w.captured[[3]int{a, b, round}] != nil {
+			w.resent[a]++
 		}
 		w.captured[[3]int{a, b, round}] = proto.Clone(m).(*pb.BCastMessage)
 		w.cond.Broadcast()
@@ -187,15 +431,22 @@ func (w *cbWorld) sharesParked(i int) bool {
 }
 
 // deliverCast hands the captured cast to j's real bcast server handler (again, for a re-delivery).
-func (w *cbWorld) deliverCast(ctx context.Context, i, j, round int) error {
+// The second result reports a handler that does not return (a callback stuck on a full channel).
+func (w *cbWorld) deliverCast(ctx context.Context, i, j, round int) (error, bool) {
 	w.mu.Lock()
 	m := w.captured[[3]int{i, j, round}]
 	w.mu.Unlock()
 	if m == nil {
-		return errors.New("verif wire: no such cast was broadcast")
+		return errors.New("verif wire: no such cast was broadcast"), false
 	}
-
-	return w.comps[j-1].VerifHandleMessage(ctx, w.ids[i-1], proto.Clone(m).(*pb.BCastMessage))
+	res := make(chan error, 1)
+	go func() { res <- w.comps[j-1].VerifHandleMessage(ctx, w.ids[i-1], proto.Clone(m).(*pb.BCastMessage)) }()
+	select {
+	case err := <-res:
+		return err, false
+	case <-time.After(waitFor):
+		return nil, true
+	}
 }
 
 // releaseShare lets one parked share stream i->j through to the real handler and waits until it has returned.
